@@ -1044,6 +1044,33 @@ class FuncAnalysis:
                 return it[1][1]
         return ('comp', 'dict', ('kv', k, v), gens)
 
+    def _canon_args(self, f, args, kws):
+        """One spelling per call of a package-local function: keyword arguments that name the next
+        positional parameters are passed positionally (f(a, y=b) == f(a, b))."""
+        if f[0] != 'g' or not kws or any(a[0] == 'star' for a in args):
+            return args, kws
+        q = f[1]
+        fi = self.repo.funcs.get(q)
+        skip = 0
+        if fi is not None and fi.cls is not None:
+            return args, kws
+        if fi is None and q in self.repo.classes:
+            fi = self.repo.funcs.get(q + '.__init__')
+            skip = 1
+        if fi is None or fi.node.decorator_list:
+            return args, kws
+        a = fi.node.args
+        params = [x.arg for x in list(a.posonlyargs) + list(a.args)][skip:]
+        npos_only = max(0, len(a.posonlyargs) - skip)
+        byname = {k[1]: k for k in kws if k[0] == 'kw'}
+        args = list(args)
+        kws = list(kws)
+        while len(args) < len(params) and len(args) >= npos_only and params[len(args)] in byname:
+            k = byname.pop(params[len(args)])
+            kws.remove(k)
+            args.append(k[2])
+        return args, kws
+
     def _e_Call(self, n, stmt=False):
         f = self.ev(n.func)
         args = []
@@ -1068,6 +1095,7 @@ class FuncAnalysis:
                     kws.append(('dstar', v))
             else:
                 kws.append(T.kw(k.arg, self.ev(k.value)))
+        args, kws = self._canon_args(f, args, kws)
         t = T.call(f, args, kws)
         # calls that consume state (next(it), x.pop(), f.readline() ...) denote a new value each
         # time they are evaluated: number the evaluations of one call term
